@@ -78,7 +78,7 @@ func Ln(z *big.Float) *big.Float {
 	num := nf().Sub(m, fOne)
 	den := nf().Add(m, fOne)
 	l := atanh2(num.Quo(num, den)) // ln of the reduced mantissa
-	l.SetMantExp(l, roots)          // ·2^roots
+	l.SetMantExp(l, roots)         // ·2^roots
 	if e != 0 {
 		l.Add(l, nf().Mul(ln2, nf().SetInt64(int64(e))))
 	}
